@@ -66,6 +66,12 @@
 #include <fcppt/parse/skipper/basic_literal.hpp>
 #include <fcppt/parse/skipper/epsilon.hpp>
 #include <fcppt/parse/skipper/space.hpp>
+#include <fcppt/parse/skipper/make_failure.hpp>
+#include <fcppt/parse/skipper/make_success.hpp>
+#include <fcppt/parse/skipper/result.hpp>
+#include <fcppt/parse/skipper/tag.hpp>
+#include <fcppt/parse/fatal_tag.hpp>
+#include <fcppt/parse/basic_stream_impl.hpp>
 #include <fcppt/parse/skipper/operators/repetition.hpp>
 #include <fcppt/parse/skipper/operators/sequence.hpp>
 #include <fcppt/tuple/get.hpp>
